@@ -229,10 +229,10 @@ def hand_check(prop_id, lines, hist, rule, nontrivial, project, impl_checks=None
             len(bad), cid, prof, first[0], first[1])))
     # verdict: run both again in release profile and compare the projections
     hs = harnesses()
-    impl, model = axv.run_pair(hs["release"], lines, False, False, (tag or prop_id) + "-verdict")
+    impl, model = axv.run_pair(hs["release"], lines, False, False, (tag or prop_id) + "-verdict", keep_x=True)
     nproj = 0
     for cid in impl:
-        pi, pm = project(impl[cid]), project(model.get(cid, []))
+        pi, pm = project([l for l in impl[cid] if not l.startswith("x ")]), project(model.get(cid, []))
         if pi != pm:
             nproj += 1
             if len(violations) < 3:
@@ -842,4 +842,244 @@ def c19(tier, seed, **kw):
     res["extra"]["fuzz_panics"] = npanic
     res["rule"] += "; plus byte strings of length 1..15 (half uniform, half prefix/opcode/ModRM-structured) as code with random " \
                    "registers, flags and layouts, in both build profiles, checked for panics, aborts and hangs (watchdog)"
+    return res
+
+
+# ----------------------------------------------------------------------------- C18: control-flow programs
+
+CC_NAMES = ["o", "no", "b", "ae", "e", "ne", "be", "a", "s", "ns", "p", "np", "l", "ge", "le", "g"]
+
+
+def cc_holds(k, fl):
+    cf, pf, zf, sf, of = fl & 1, (fl >> 2) & 1, (fl >> 6) & 1, (fl >> 7) & 1, (fl >> 11) & 1
+    return [of, not of, cf, not cf, zf, not zf, cf or zf, not (cf or zf), sf, not sf, pf, not pf,
+            sf != of, sf == of, zf or sf != of, not zf and sf == of][k] and True or False
+
+
+def gen_cf_programs(seed, n):
+    """programs laid out in 16-byte slots so that every slot start is a branch target"""
+    rng = random.Random(seed * 2654435761 + 18)
+    lines, hist = [], {}
+
+    def h(k):
+        hist[k] = hist.get(k, 0) + 1
+
+    import struct
+    for k in range(n):
+        cid = "cf%d" % k
+        nslots = rng.randrange(3, 12)
+        start = rng.choice([0x1000, 0x401000, 0x10000])
+        SL = 16
+        slots = []
+        for j in range(nslots):
+            def tgt():
+                return start + SL * rng.randrange(0, nslots + (1 if rng.random() < 0.1 else 0))
+            here = start + SL * j
+            code = b""
+            kind = rng.choices(["jcc8", "jcc32", "jmp8", "jmp32", "call", "ret", "ijmp", "icall", "memjmp", "loop", "jrcxz",
+                                "jecxz", "pushret", "arith", "bad", "nop"],
+                               weights=[6, 4, 3, 3, 7, 7, 3, 3, 2, 5, 2, 2, 3, 4, 1, 2])[0]
+            h("slot-" + kind)
+            pre = b""
+            if rng.random() < 0.5:
+                # something that sets flags / registers first
+                pre = rng.choice([bytes([0x48, 0x83, 0xf8, rng.randrange(0, 4)]),      # cmp rax, imm8
+                                  bytes([0x48, 0xff, 0xc8]),                          # dec rax
+                                  bytes([0x48, 0xff, 0xc9]),                          # dec rcx
+                                  bytes([0x48, 0x85, 0xc0]),                          # test rax, rax
+                                  bytes([0x48, 0x29, 0xd8]),                          # sub rax, rbx
+                                  bytes([0x48, 0x01, 0xd8])])                         # add rax, rbx
+            pos = here + len(pre)
+            if kind in ("jcc8", "loop"):
+                t = tgt() if kind == "jcc8" else start + SL * rng.randrange(0, j + 1)
+                cc = rng.randrange(16) if kind == "jcc8" else 5
+                if kind == "loop":
+                    pre = bytes([0x48, 0xff, 0xc9])   # dec rcx ; jne back
+                    pos = here + 3
+                    if t == here:
+                        t = here  # tight loop: repeated identical jump -> run-length compression
+                rel = t - (pos + 2)
+                if -128 <= rel <= 127:
+                    code = bytes([0x70 + cc, rel & 0xff])
+                else:
+                    rel = t - (pos + 6)
+                    code = bytes([0x0f, 0x80 + cc]) + struct.pack("<i", rel)
+            elif kind == "jcc32":
+                cc = rng.randrange(16)
+                code = bytes([0x0f, 0x80 + cc]) + struct.pack("<i", tgt() - (pos + 6))
+            elif kind == "jmp8":
+                rel = tgt() - (pos + 2)
+                code = bytes([0xeb, rel & 0xff]) if -128 <= rel <= 127 else bytes([0xe9]) + struct.pack("<i", rel - 3)
+            elif kind == "jmp32":
+                code = bytes([0xe9]) + struct.pack("<i", tgt() - (pos + 5))
+            elif kind == "call":
+                code = bytes([0xe8]) + struct.pack("<i", tgt() - (pos + 5))
+            elif kind == "ret":
+                code = b"\xc3"
+            elif kind in ("ijmp", "icall"):
+                # mov rdx, imm64 ; jmp/call rdx
+                code = b"\x48\xba" + struct.pack("<Q", tgt()) + (b"\xff\xe2" if kind == "ijmp" else b"\xff\xd2")
+            elif kind == "memjmp":
+                # jmp/call qword ptr [rip+disp] -> a table slot at the end of the program
+                code = (b"\xff\x25" if rng.random() < 0.5 else b"\xff\x15") + struct.pack("<i", start + SL * nslots - (pos + 6))
+            elif kind in ("jrcxz", "jecxz"):
+                rel = tgt() - (pos + 2 + (1 if kind == "jecxz" else 0))
+                if -128 <= rel <= 127:
+                    code = (b"\x67" if kind == "jecxz" else b"") + bytes([0xe3, rel & 0xff])
+            elif kind == "pushret":
+                # push an address, return to it (an unmatched return)
+                code = b"\x48\xb8" + struct.pack("<Q", tgt()) + b"\x50\xc3"
+            elif kind == "arith":
+                code = rng.choice([b"\x48\xff\xc0", b"\x48\x31\xc0", b"\x48\xf7\xf3", b"\x90"])   # inc / xor / div rbx / nop
+            elif kind == "bad":
+                code = rng.choice([b"\x0f\x0b", b"\xf4", b"\x06"])
+            body = pre + code
+            body = body[:SL]
+            slots.append(body + b"\x90" * (SL - len(body)))
+        table = struct.pack("<Q", start + SL * rng.randrange(0, nslots)) + b"\x90" * 8
+        prog = b"".join(slots) + table
+        lines.append("case " + cid)
+        lines.append("new %s %x %x" % (prog.hex(), start, start + SL * rng.randrange(0, min(2, nslots))))
+        regs = [rng.choice([0, 1, 2, 3, 5, rng.randrange(1 << 32), (1 << 32) * rng.randrange(1, 9)]) for _ in range(16)]
+        regs[2] = rng.choice([0, 1, 2, 3, 4, 9, 1 << 32, (1 << 32) + 2])   # RCX drives loops / jrcxz / jecxz
+        lines.append("allregs " + " ".join("%x" % v for v in regs))
+        lines.append("allxmm " + " ".join("0" for _ in range(16)))
+        lines.append("flags %x" % rng.choice([0, 0x40, 0x1, 0x80, 0x800, 0x880, 0x8d5, 0x4]))
+        lines.append("stack %x" % rng.choice([0x40, 0x100, 0x400]))
+        lines.append("dump")
+        nsteps = rng.choice([4, 8, 16, 30, 60])
+        h("steps-%d" % nsteps)
+        for _ in range(nsteps):
+            lines.append("step")
+            lines.append("dump")
+        lines.append("render")
+        lines.append("end")
+    return lines, hist
+
+
+CF_STATS = {}
+
+
+def cf_tracer(block, res):
+    """independent tracer: from the implementation's own per-step dumps and decode records, derive
+    the events that must have been recorded (branch conditions evaluated here), build the expected
+    compressed trace / levels / call stack and compare with what the implementation reports."""
+    dumps, cur = [], None
+    steps = []          # (decode tokens or None, result line)
+    pending_dec = None
+    for l in res:
+        if l.startswith("x dec"):
+            pending_dec = l.split()
+        elif l.startswith("r ") and not l.startswith("r render"):
+            steps.append((pending_dec, l))
+            pending_dec = None
+        elif l.startswith("d regs"):
+            cur = dict(regs=[int(x, 16) for x in l.split()[2:]])
+            dumps.append(cur)
+        elif l.startswith("d misc") and cur is not None:
+            t = l.split()
+            cur["flags"], cur["finished"], cur["stack_top"] = int(t[2], 16), t[5] == "1", int(t[9], 16)
+        elif l.startswith("d cs") and cur is not None:
+            cur["cs"] = [int(x, 16) for x in l.split()[2:]]
+        elif l.startswith("d trace") and cur is not None:
+            cur["trace"] = [tuple(int(y, 16) if n != 2 else {"0": "Call", "1": "Return", "2": "Jump"}.get(y, y) for n, y in enumerate(x.split(":"))) for x in l.split()[2:]]
+    # the ops before the first dump (new/allregs/...) produce result lines too: align steps from the end
+    nsteps = sum(1 for b in block if b == "step")
+    steps = steps[len(steps) - nsteps:] if nsteps else []
+    if len(dumps) != nsteps + 1:
+        return None
+    exp_trace = list(dumps[0]["trace"])
+    exp_cs = list(dumps[0]["cs"])
+    for k, (dec, r) in enumerate(steps):
+        before, after = dumps[k], dumps[k + 1]
+        if dec is not None and r.startswith("r ok"):
+            code, mnem = dec[4], dec[5]
+            ip, ln = int(dec[2], 16), int(dec[6], 16)
+            fl = before["flags"]
+            rcx = before["regs"][3]
+            fam = code.split("_")[0]
+            ev = None
+            new_rip = after["regs"][0]
+            if fam.startswith("J") and fam[1:].lower() in CC_NAMES:
+                if cc_holds(CC_NAMES.index(fam[1:].lower()), fl):
+                    ev = "Jump"
+            elif fam == "Jmp":
+                ev = "Jump"
+            elif fam == "Jrcxz":
+                ev = "Jump" if rcx == 0 else None
+            elif fam == "Jecxz":
+                ev = "Jump" if rcx & 0xffffffff == 0 else None
+            elif fam == "Call":
+                ev = "Call"
+            elif fam == "Retnq":
+                # a return from the outermost frame ends the run instead
+                if not (after["finished"] and new_rip == int(dec[7], 16)):
+                    ev = "Return"
+            if ev:
+                lvl = 0
+                if exp_trace:
+                    lip, ltg, lvar, llvl, lcnt = exp_trace[-1]
+                    l16 = llvl - 0x10000 if llvl >= 0x8000 else llvl
+                    if lvar == "Call":
+                        l16 = min(32767, l16 + 1)
+                    elif lvar == "Return":
+                        l16 = max(-32768, l16 - 1)
+                    lvl = l16 & 0xffff
+                    if lvar == "Jump" and ev == "Jump" and lip == ip and ltg == new_rip:
+                        exp_trace[-1] = (lip, ltg, lvar, llvl, lcnt + 1)
+                        ev = None
+                if ev:
+                    exp_trace.append((ip, new_rip, ev, lvl, 1))
+                    if ev == "Call":
+                        exp_cs.append(new_rip)
+                    elif ev == "Return" and exp_cs:
+                        exp_cs.pop()
+        if after["trace"] != exp_trace:
+            return "trace differs from the independent tracer after step %d: impl %s expected %s" % (
+                k + 1, after["trace"][-3:], exp_trace[-3:])
+        if after["cs"] != exp_cs:
+            return "call stack differs from the calls not yet returned from after step %d: impl %s expected %s" % (
+                k + 1, after["cs"], exp_cs)
+    st = CF_STATS
+    fin = dumps[-1]["trace"] if dumps else []
+    st["programs"] = st.get("programs", 0) + 1
+    st["entries"] = st.get("entries", 0) + len(fin)
+    st["events"] = st.get("events", 0) + sum(x[4] for x in fin)
+    st["programs_with_compressed_jump"] = st.get("programs_with_compressed_jump", 0) + (1 if any(x[4] > 1 for x in fin) else 0)
+    st["programs_with_negative_level"] = st.get("programs_with_negative_level", 0) + (1 if any(x[3] >= 0x8000 for x in fin) else 0)
+    st["programs_ending_in_error"] = st.get("programs_ending_in_error", 0) + (1 if steps and not steps[-1][1].startswith("r ok") else 0)
+    for x in fin:
+        st["variant-" + str(x[2])] = st.get("variant-" + str(x[2]), 0) + 1
+    rl = next((l for l in res if l.startswith("r render")), None)
+    if rl is not None:
+        t = rl.split()
+        if t[2] == "panic" or t[3] == "panic" or t[4] == "panic" or t[2] == "err":
+            return "rendering failed: " + rl
+        want = ",".join(str(2 * max(0, (x[3] - 0x10000 if x[3] >= 0x8000 else x[3]))) for x in dumps[-1]["trace"])
+        if t[2] != "ok:" + want:
+            return "trace indentation is not twice the nesting level: %s expected %s" % (t[2], want)
+    return None
+
+
+@prop("C18")
+def c18(tier, seed, **kw):
+    n = 500 if tier == "quick" else 20000
+    lines, hist = gen_cf_programs(seed, n)
+    # the exec histories (hooks, limits, errors) exercise trace/call stack/render as well
+    l2, h2 = gen_exec_histories(seed + 18, 200 if tier == "quick" else 5000)
+    hist.update({"exec-" + k: v for k, v in h2.items()})
+    CF_STATS.clear()
+    res = hand_check(
+        "C18", lines + l2, hist,
+        rule="random programs in 16-byte slots built from jcc rel8/rel32 (16 conditions), jmp rel8/rel32, call rel32, ret, "
+             "indirect jmp/call through a register and through memory, dec/jne loops (run-length compression), jrcxz/jecxz, "
+             "push+ret (unmatched returns), arithmetic, undecodable bytes; stepped 4-60 times with a dump after every step; "
+             "an independent tracer (branch conditions evaluated in the driver from the dumped flags) predicts trace, levels "
+             "and call stack after every step; `render` compares indentation widths; plus the exec histories of C11/C12; "
+             "non-trivial = at least one recorded transfer",
+        nontrivial=lambda b: any(x.startswith(("step", "exec")) for x in b),
+        project=lambda r: project_generic(r, ("d cs", "d trace")),
+        impl_checks=lambda block, res: (cf_tracer(block, res) if block[0].startswith("case cf") else None) or
+                                       next(("rendering panicked: " + l for l in res if l.startswith("r render") and "panic" in l), None))
+    res.setdefault("extra", {})["independent_tracer"] = dict(CF_STATS)
     return res
